@@ -1050,7 +1050,9 @@ class SymX:
                 self._assign(el, ("idx", ("elem", src, lid), const(i)), st, None)
             return
         if src[0] == "call" and src[1] == ("builtin", "enumerate") and isinstance(target, (ast.Tuple, ast.List)) and len(target.elts) == 2 and src[2]:
-            self._assign(target.elts[0], ("elem", ("call", ("builtin", "range"), (("call", ("builtin", "len"), (src[2][0],), ()),), ()), lid), st, None)
+            start = src[2][1] if len(src[2]) > 1 else next((v for k, v in src[3] if k == "start"), const(0))
+            j = ("elem", ("call", ("builtin", "range"), (("call", ("builtin", "len"), (src[2][0],), ()),), ()), lid)
+            self._assign(target.elts[0], j if is_const(start, 0) else ("binop", "+", j, start), st, None)
             self._assign(target.elts[1], ("elem", src[2][0], lid), st, None)
             return
         if src[0] == "mcall" and src[2] == "items" and isinstance(target, (ast.Tuple, ast.List)) and len(target.elts) == 2:
@@ -1175,6 +1177,15 @@ class SymX:
             return [phi([(g, col[i]) for (g, _a), col in zip(v[1], cols)]) for i in range(n)]
         if v[0] == "call" and v[1] == ("builtin", "map") and len(v[2]) == 2 and v[2][1][0] in ("tuple", "list") and len(v[2][1][1]) == n:
             return [self._apply(v[2][0], (x,), (), st, None) for x in v[2][1][1]]
+        src = v[3] if v[0] == "box" and v[3][0] in ("call", "comp") else v
+        while src[0] == "call" and src[1] in (("builtin", "list"), ("builtin", "tuple")) and len(src[2]) == 1:
+            src = src[2][0]
+        if src[0] == "comp" and src[1] in ("list", "gen") and len(src[3]) == 1 and not src[3][0][2]:
+            # a comprehension over a display of exactly n elements: element i is the comprehension's element for the i-th item
+            tgt, it, _conds = src[3][0]
+            items = it[3] if it[0] == "box" else it
+            if items[0] in ("tuple", "list") and len(items[1]) == n and not any(x[0] == "star" for x in items[1]) and tgt[0] == "elem":
+                return [rewrite(src[2], lambda x, e=e: e if x == tgt else None) for e in items[1]]
         return [("idx", v, const(i)) for i in range(n)]
 
     def _augassign(self, s: ast.AugAssign, st: State) -> State:
